@@ -525,7 +525,7 @@ theorem mem_layer (own : List α) (ls : List (Link α F)) (k : Nat) (c : α) :
     · intro h; cases h with
       | own hc => exact hc
   | succ k ih =>
-    simp only [layer, List.mem_append, List.mem_map, List.mem_filter, List.all_eq_true,
+    simp only [layer, nextLayer, List.mem_append, List.mem_map, List.mem_filter, List.all_eq_true,
       decide_eq_true_eq]
     constructor
     · rintro (h | ⟨l, ⟨hl, hall⟩, rfl⟩)
@@ -537,24 +537,26 @@ theorem mem_layer (own : List α) (ls : List (Link α F)) (k : Nat) (c : α) :
       | link hl hfs => exact Or.inr ⟨_, ⟨hl, fun f hf => (ih f).mpr (hfs f hf)⟩, rfl⟩
 
 theorem firstLayer_some {own : List α} {ls : List (Link α F)} {c : α} (n : Nat) :
-    ∀ k0 k, firstLayer own ls c n k0 = some k →
+    ∀ k0 k cur, cur = layer own ls k0 → firstLayer own ls c n k0 cur = some k →
       c ∈ layer own ls k ∧ k0 ≤ k ∧ k ≤ k0 + n ∧ ∀ j, k0 ≤ j → j < k → c ∉ layer own ls j := by
   induction n with
   | zero =>
-    intro k0 k h
+    intro k0 k cur hcur h
+    subst hcur
     simp only [firstLayer] at h
     split at h
     · injection h with h; subst h
       exact ⟨‹_›, Nat.le_refl _, by omega, fun j h1 h2 => by omega⟩
     · cases h
   | succ n ih =>
-    intro k0 k h
+    intro k0 k cur hcur h
+    subst hcur
     simp only [firstLayer] at h
     split at h
     · injection h with h; subst h
       exact ⟨‹_›, Nat.le_refl _, by omega, fun j h1 h2 => by omega⟩
     · rename_i hn
-      obtain ⟨h1, h2, h3, h4⟩ := ih _ _ h
+      obtain ⟨h1, h2, h3, h4⟩ := ih (k0 + 1) k _ rfl h
       refine ⟨h1, by omega, by omega, ?_⟩
       intro j hj hjk
       by_cases hj0 : j = k0
@@ -562,24 +564,27 @@ theorem firstLayer_some {own : List α} {ls : List (Link α F)} {c : α} (n : Na
       · exact h4 j (by omega) hjk
 
 theorem firstLayer_none {own : List α} {ls : List (Link α F)} {c : α} (n : Nat) :
-    ∀ k0, firstLayer own ls c n k0 = none → ∀ j, k0 ≤ j → j ≤ k0 + n → c ∉ layer own ls j := by
+    ∀ k0 cur, cur = layer own ls k0 → firstLayer own ls c n k0 cur = none →
+      ∀ j, k0 ≤ j → j ≤ k0 + n → c ∉ layer own ls j := by
   induction n with
   | zero =>
-    intro k0 h j h1 h2
+    intro k0 cur hcur h j h1 h2
+    subst hcur
     simp only [firstLayer] at h
     split at h
     · cases h
     · have : j = k0 := by omega
       subst this; assumption
   | succ n ih =>
-    intro k0 h j h1 h2
+    intro k0 cur hcur h j h1 h2
+    subst hcur
     simp only [firstLayer] at h
     split at h
     · cases h
     · rename_i hn
       by_cases hj0 : j = k0
       · subst hj0; exact hn
-      · exact ih _ h j (by omega) (by omega)
+      · exact ih (k0 + 1) _ rfl h j (by omega) (by omega)
 
 /-- Every reachable cid has a derivation of depth at most the number of links. -/
 theorem reachable_derivLe_length {own : List α} {ls : List (Link α F)} {c : α}
@@ -594,7 +599,7 @@ theorem reachable_derivLe_length {own : List α} {ls : List (Link α F)} {c : α
 theorem specDepth_some {own : List α} {ls : List (Link α F)} {c : α} {k : Nat}
     (h : specDepth own ls c = some k) :
     DerivLe own ls k c ∧ ∀ j, DerivLe own ls j c → k ≤ j := by
-  obtain ⟨h1, _, _, h4⟩ := firstLayer_some _ _ _ h
+  obtain ⟨h1, _, _, h4⟩ := firstLayer_some _ _ _ _ rfl h
   refine ⟨(mem_layer _ _ _ _).mp h1, ?_⟩
   intro j hj
   apply Classical.byContradiction
@@ -605,7 +610,7 @@ theorem specDepth_none {own : List α} {ls : List (Link α F)} {c : α}
     (h : specDepth own ls c = none) : ¬ Reachable own ls c := by
   intro hr
   have := reachable_derivLe_length hr
-  exact firstLayer_none _ _ h ls.length (Nat.zero_le _) (by omega) ((mem_layer _ _ _ _).mpr this)
+  exact firstLayer_none _ _ _ rfl h ls.length (Nat.zero_le _) (by omega) ((mem_layer _ _ _ _).mpr this)
 
 theorem specDepth_isSome_iff (own : List α) (ls : List (Link α F)) (c : α) :
     (specDepth own ls c).isSome = true ↔ Reachable own ls c := by
